@@ -660,6 +660,9 @@ primaryexpr(struct scope *s)
 		if (d->kind != DECLBUILTIN)
 			e = decay(e);
 		next();
+		/* built-ins have no type and can only be called */
+		if (d->kind == DECLBUILTIN && tok.kind != TLPAREN)
+			error(&tok.loc, "built-in function '%s' must be called", d->name);
 		break;
 	case TSTRINGLIT:
 		e = mkexpr(EXPRSTRING, NULL, NULL);
